@@ -77,9 +77,11 @@ CLAIMED = {
         text="C10_map_order: for every value the named-argument fill loop gives the same result under every iteration order of "
              "the Go map; C10_no_hidden_state: on the current tree no function writes or takes the address of a package-level "
              "variable, the SQLBuilder is allocated at the start of writeToSQLString and never stored, and no value function "
-             "writes an object that existed before it was called - so nothing survives a rendering. SetMap's key sort is covered "
-             "by the byte-exact correspondence. Harness: every value rendered 20/200 times interleaved with renderings of "
-             "other values, from one and from 16 goroutines, SetMap with up to 64 keys.",
+             "writes an object that existed before it was called - so nothing survives a rendering. C10_map_iteration: every range "
+             "over a Go map in the library (re-read from /repo on every run) is either collect-then-sort.Strings (SetMap) or the "
+             "bind fill loop. Harness: every value rendered 20/200 times interleaved with renderings of other values, from one "
+             "and from 16 goroutines; SetMap maps with up to 64 keys plus key families that only a byte order separates "
+             "(letter case, blanks, Unicode forms) are REBUILT from the same contents on every repetition.",
         note="Partial: goroutine schedules are exercised, not enumerated. Which of several missing names an error mentions depends "
              "on map order (error class compared).",
         ref="DESIGN.md §6 C10"),
@@ -163,7 +165,8 @@ CLAIMED = {
              "C12_current_tree - when ToSQL reports an error the executor observes no call and the method returns the zero "
              "result with that error; census: no other function of the adapter packages calls the executor. Tie to behaviour: "
              "failing queries of every error kind x 2 adapters x 3 methods x 2 construction paths x named/none x validation "
-             "on/off against recording stub executors.",
+             "on/off against recording stub executors; whether rendering reports an error is decided by the extracted model "
+             "(byte-exact correspondence of ToSQL on the same cases), not by the library's own ToSQL.",
         note="The interpreter covers the Go fragment the adapters are written in (tuple assignment from ToSQL, if err != nil, "
              "return, one executor call); a body outside the fragment makes the obligation fail (reported, with a search for a "
              "failing input by the stub harness). Trusted: translator (pure AST dump), reading of the fragment's semantics.",
